@@ -63,6 +63,21 @@ def case_functional(draw, tier):
                 meta=draw(st.sampled_from(['none', 'none', 'renumber', 'rigid', 'refine'])))
 
 
+@st.composite
+def case_named(draw, tier):
+    """integrals over NAMED cells/facets before and after uniform refinement (the name must keep meaning the same point set)"""
+    big = tier == 'thorough'
+    desc = draw(gm.mesh(max_cells=8 if big else 6, max_cells_3d=3, order2=True, curved=False,
+                        kinds=('line', 'tri', 'tri', 'quad', 'quad', 'tet', 'hex')))
+    kind = gm.mesh_kind(desc)
+    d = gm.DIM[kind]
+    maxdeg = 3 if d < 3 else 2
+    alpha = draw(st.lists(st.integers(0, maxdeg), min_size=d, max_size=d).filter(lambda a: sum(a) <= maxdeg))
+    wh = ['subdomain'] if (d == 3 or not desc['cls'].endswith('1')) else ['subdomain', 'facetsub', 'facetsub', 'interior', 'interior']
+    return dict(mesh=desc, alpha=alpha, where=draw(st.sampled_from(wh)),
+                picks=draw(st.lists(st.integers(0, 10**4), min_size=1, max_size=8)), extra=draw(st.integers(0, 2)), meta='refine')
+
+
 def planar_faces(m):
     for f in range(m.nfacets):
         P = m.p[:, m.facets[:, f]]
@@ -180,6 +195,28 @@ def body_functional(c, ctx):
             ctx.fail('elemental_shape', f'{el.shape}', **sig)
     # ---------------------------------------------------------------- metamorphic relations (whole mesh / boundary)
     meta = c['meta']
+    if meta == 'refine' and where in ('subdomain', 'facetsub', 'interior') and kind != 'wedge':
+        # a NAMED region keeps its meaning under uniform refinement (one call, one or two levels): the integral over the name
+        # is the integral over the same point set.  Named facets survive refinement in 1-D/2-D only (3-D classes drop them).
+        k = 1 + c['extra'] % 2
+        if m.nelements * (2 ** d) ** k > 400 or (where != 'subdomain' and (d == 3 or not desc['cls'].endswith('1'))):
+            return
+        import warnings
+        with warnings.catch_warnings():
+            warnings.simplefilter('ignore')
+            if where == 'subdomain':
+                m2 = mm.refined(k)
+                b2 = CellBasis(m2, getattr(skfem, P1[kind])(), intorder=order, elements='omega')
+            else:
+                m2 = m.with_boundaries({'gam': facets}).refined(k)
+                if where == 'facetsub':
+                    b2 = FacetBasis(m2, getattr(skfem, P1[kind])(), intorder=order, facets='gam')
+                else:
+                    b2 = skfem.InteriorFacetBasis(m2, getattr(skfem, P1[kind])(), intorder=order, facets='gam', side=c['extra'] % 2)
+        got2 = float(Functional(integrand).assemble(b2))
+        ctx.cls('named_region_refined')
+        ctx.close('metamorphic_refine_named', got2, got, 5e-11, scale, levels=k, **sig)
+        return
     if meta == 'none' or where not in ('cells', 'bnd') or desc['cls'].endswith('2'):
         return
     cls = type(m)
@@ -451,6 +488,7 @@ PROP = Prop(
                  'integration order = degree of the pulled-back integrand incl. Jacobian (premise of the property, by construction)',
                  'tetrahedral orders capped at 8 (largest tabulated exactness)'],
     subs=[Sub('functional', body_functional, strategy=case_functional, quick=2400, thorough=30000),
+          Sub('named_refined', body_functional, strategy=case_named, quick=500, thorough=6000),
           Sub('matrices', body_matrices, strategy=case_matrices, quick=800, thorough=10000),
           Sub('pou', body_pou, strategy=case_pou, quick=800, thorough=10000)],
     design_ref='DESIGN.md section 6, C02')
